@@ -32,6 +32,298 @@ ASSUMPTIONS = ["JSON/YAML typing: a bool is not an int, 2.0 is not an int; list 
                "docutils halt_level/report_level at their harness defaults"]
 
 
+
+def gen(ctx):
+    import hashlib
+    from gen import c13_config as G
+    from lib import common
+    text, info = G.generate(common.REPO)
+    common.write_if_changed(common.COQ / "Gen" / "Config.v", text)
+    ctx.gen_info.update({
+        "sources": src_hashes(["myst_parser/config/main.py", "myst_parser/config/dc_validators.py",
+                               "myst_parser/parsers/docutils_.py", "myst_parser/sphinx_ext/main.py"]),
+        "Gen/Config.v": hashlib.sha256(text.encode()).hexdigest()[:16],
+        "fields": len(info["fields"]), "known_extensions": len(info["known_extensions"]),
+        "custom_validated_fields": [f["name"] for f in info["fields"] if f["val"].startswith("(VCustom")],
+        "merge_topmatter_fields": [f["name"] for f in info["fields"] if f["merge"]],
+        "global_only_fields": [f["name"] for f in info["fields"] if f["global_only"]],
+    })
+
+
+# ------------------------------------------------------------------ model side helpers
+
+def import_table():
+    """O_import: what each import string of V.IMPORTS denotes in this interpreter, for the model."""
+    import importlib
+    out = []
+    for s in V.IMPORTS:
+        if "." not in s:
+            continue
+        mod, fn = s.rsplit(".", 1)
+        try:
+            obj = getattr(importlib.import_module(mod), fn)
+            c = V.canon(obj)
+            k = ("c" if c[0] == "callable" else "o") + V._enc_s(c[1])
+        except ImportError:
+            k = "m"
+        except AttributeError:
+            k = "a"
+        except ValueError:
+            k = "v"
+        out.append(V._enc_s(s) + "=" + k)
+    return ";".join(out) if out else "."
+
+
+def enc_kwargs(kw):
+    return ";".join(V._enc_s(k) + "=" + V.enc_jv(v) for k, v in kw.items()) if kw else "."
+
+
+def dec_cfg(reply):
+    """'ok name=jv;...' -> {name: canonical value};  '!X' -> ('error', X)"""
+    if reply.startswith("!"):
+        return ("error", reply[1:])
+    body = reply[3:]
+    out = {}
+    for part in body.split(";"):
+        k, v = part.split("=", 1)
+        out["".join(chr(int(x)) for x in k.split(","))] = V.dec_jv(v.split(" "))[0]
+    return out
+
+
+BASE_KW = dict(enable_extensions=["deflist", "tasklist"], html_meta={"description": "g", "keywords": "gk"},
+               substitutions={"a": "ga", "g": 1}, url_schemes={"http": None, "x": "https://x/{{path}}"},
+               heading_anchors=1, fence_as_directive=["mermaid"], disable_syntax=["table"])
+
+
+def impl_result(fn):
+    try:
+        return V.canon_cfg(fn())
+    except (TypeError, ValueError) as e:
+        return ("error", type(e).__name__)
+    except Exception as e:
+        return ("error", "other:" + type(e).__name__)
+
+
+def warn_kind(msg, fields):
+    if msg.startswith("'myst' key not a dict"):
+        return "N"
+    if msg.startswith("top-level 'html_meta'"):
+        return "H"
+    if msg.startswith("top-level 'substitutions'"):
+        return "B"
+    if msg.startswith("Unknown field: "):
+        return "U"
+    return "V"
+
+
+def rand_topmatter(rng, fields):
+    """Front matter with several keys: valid/invalid values, unknown keys, deprecated top-level keys."""
+    base = V.base_values()
+    top = {}
+    r = rng.random()
+    if r < 0.1:
+        top["myst"] = rng.choice([1, "x", None, ["a"], True])
+    else:
+        myst = {}
+        for _ in range(rng.randint(0, 4)):
+            if rng.random() < 0.15:
+                key = rng.choice(["nope", "Heading_anchors", "", 1, None, "myst"])
+            else:
+                key = rng.choice(fields)
+            v = rng.choice(base) if rng.random() < 0.5 else V.rand_value(rng)
+            if callable(v) or not _plain(v):
+                continue
+            myst[key] = v
+        if myst or rng.random() < 0.5:
+            top["myst"] = myst
+    if rng.random() < 0.2:
+        top["html_meta"] = rng.choice([{"a": "b"}, {"description": "top"}, 1, {"a": 1}, {}])
+    if rng.random() < 0.2:
+        top["substitutions"] = rng.choice([{"a": "T"}, {"z": [1]}, "x", {1: 2}])
+    if rng.random() < 0.3:
+        top["title"] = "t"
+    return top
+
+
+def _plain(v):
+    """values that may sit in parsed YAML front matter (no tuple/set/callable at any depth)"""
+    if v is None or type(v) in (bool, int, float, str):
+        return True
+    if type(v) is list:
+        return all(_plain(x) for x in v)
+    if type(v) is dict:
+        return all(_plain(k) and not isinstance(k, (list, dict)) and _plain(x) for k, x in v.items())
+    return False
+
+
+def corr(ctx):
+    if not ctx.have_runner:
+        return
+    import copy as cp
+    import dataclasses as dc
+    from myst_parser.config.main import MdParserConfig, merge_file_level
+    imp = import_table()
+    fields = [f.name for f in dc.fields(MdParserConfig)]
+    rng = ctx.rng
+    cases = []   # (kind, payload, request line)
+    vals = V.base_values()
+    for f in fields:
+        for v in vals:
+            cases.append(("ctor", (f, v), "\t".join(["ctor", imp, enc_kwargs({f: v})])))
+            cases.append(("copy", (f, v), "\t".join(["copy", imp, enc_kwargs(BASE_KW), enc_kwargs({f: v})])))
+            if True:
+                cases.append(("merge", ({"myst": {f: v}},), "\t".join(["merge", imp, enc_kwargs(BASE_KW), V.enc_jv({"myst": {f: v}}), "0"])))
+    for _ in range(ctx.budget(1500, 30000, 30000)):
+        f = rng.choice(fields)
+        v = V.rand_value(rng)
+        k = rng.choice(["ctor", "copy", "merge"])
+        if k == "ctor":
+            kw = {f: v}
+            if rng.random() < 0.3:
+                kw[rng.choice(fields)] = V.rand_value(rng)
+            if rng.random() < 0.05:
+                kw["not_a_field"] = 1
+            cases.append(("ctor2", kw, "\t".join(["ctor", imp, enc_kwargs(kw)])))
+        elif k == "copy":
+            cases.append(("copy", (f, v), "\t".join(["copy", imp, enc_kwargs(BASE_KW), enc_kwargs({f: v})])))
+        else:
+            top = rand_topmatter(rng, fields)
+            cases.append(("merge", (top,), "\t".join(["merge", imp, enc_kwargs(BASE_KW), V.enc_jv(top), "0"])))
+    # docutils option strings
+    junk = ["", "x", "1", " 2 ", "-1", "+3", "1_0", "1.0", "true", "TRUE ", "Yes", "off", "maybe", "a,b", " a , b ,", ",", "a,,b",
+            "{", "{a: b}", '{"a": "b"}', "{a: 1}", "[a, b]", "a: b", "http, https", "http,", "deflist", "deflist,tasklist",
+            "nope", "{a: {classes: abc}}", "{a: {classes: [x]}}", "null", "~", "a b", "é", "{,}", "myst_parser.config.main._test_slug_func"]
+    for f in fields:
+        strs = list(junk)
+        for v in vals:
+            if V.doc_type_ok(f, v):
+                strs += spell(f, v)
+        for sv in dict.fromkeys(strs):
+            cases.append(("docutils", (f, sv), None))
+    # sphinx conf dicts
+    for _ in range(ctx.budget(150, 1500, 1500)):
+        conf = {}
+        for _ in range(rng.randint(0, 3)):
+            f = rng.choice([x for x in fields if x not in V.OMIT_SPHINX])
+            conf[f] = rng.choice(vals) if rng.random() < 0.6 else V.rand_value(rng)
+        cases.append(("sphinx", conf, "\t".join(["sphinx", imp, enc_kwargs(conf)])))
+    # implementation side first for docutils (the YAML oracle value is part of the request)
+    import yaml
+    lines = []
+    for i, (k, payload, line) in enumerate(cases):
+        if k == "docutils":
+            f, sv = payload
+            try:
+                y = yaml.safe_load(sv)
+                yf = V.enc_jv(y) if _plain(y) else "!"
+            except Exception:
+                yf = "!"
+            line = "\t".join(["docutils", imp, V._enc_s(f), V._enc_s(sv), yf])
+            cases[i] = (k, payload, line)
+        lines.append(cases[i][2])
+    outs = model_run_parallel(PID, lines)
+    base = None
+    for (k, payload, line), o in zip(cases, outs):
+        ctx.corr_cases += 1
+        ctx.count("corr:" + k)
+        if k in ("ctor", "copy"):
+            f, v = payload
+            if k == "ctor":
+                r = impl_result(lambda: MdParserConfig(**{f: cp.deepcopy(v)}))
+            else:
+                r = impl_result(lambda: MdParserConfig(**cp.deepcopy(BASE_KW)).copy(**{f: cp.deepcopy(v)}))
+            m = dec_cfg(o)
+            if f in V.DOC_FIELDS and (not V.doc_type_ok(f, v) or (isinstance(r, dict) and r.get(f) != V.canon(v))):
+                ctx.nontriv((k, f, repr(v)))
+            if r != m:
+                _dis(ctx, k, {"kind": "value", "field": f, "value": ser(v)}, r, m, f)
+        elif k == "ctor2":
+            r = impl_result(lambda: MdParserConfig(**cp.deepcopy(payload)))
+            m = dec_cfg(o)
+            if r != m:
+                _dis(ctx, "constructor (several keywords)", {"kind": "kwargs", "kwargs": ser(payload)}, r, m)
+        elif k == "merge":
+            top = payload[0]
+            base = MdParserConfig(**cp.deepcopy(BASE_KW))
+            snap = _snapshot(base)
+            ws = []
+            try:
+                new = merge_file_level(base, cp.deepcopy(top), lambda t, msg: ws.append(msg))
+                r = (V.canon_cfg(new), "same" if _snapshot(base) == snap else "CHANGED", [warn_kind(w, fields) for w in ws])
+            except Exception as e:
+                r = ("error", type(e).__name__)
+            if o.startswith("!"):
+                m = ("error", o[1:])
+            else:
+                cfg_s, glob_s, warn_s = o.split(" # ")
+                m = (dec_cfg(cfg_s), glob_s, [] if warn_s == "." else [w[0] for w in warn_s.split("/")])
+            if isinstance(r[0], dict) and (r[2] or r[0] != V.canon_cfg(base)):
+                ctx.nontriv(("merge", repr(top)))
+            if r != m:
+                _dis(ctx, "merge_file_level", {"kind": "topmatter", "topmatter": ser(top)}, r, m)
+        elif k == "docutils":
+            f, sv = payload
+            rr = docutils_parse(f, sv)
+            r = V.canon_cfg(rr[1]) if rr[0] == "ok" else ("error", "opt" if rr[0] == "optparse-error" else rr[1])
+            m = dec_cfg(o)
+            if isinstance(r, dict):
+                ctx.nontriv(("docutils", f, sv))
+            if r != m:
+                _dis(ctx, "docutils option string", {"kind": "docutils", "field": f, "value": None, "strings": [sv]}, r, m, f)
+        elif k == "sphinx":
+            r = sphinx_create(payload)
+            m = dec_cfg(o)
+            if isinstance(m, tuple) and m[1] in ("TypeError", "ValueError"):
+                m = ("error", "invalid")
+            if r != m:
+                _dis(ctx, "sphinx create_myst_config", {"kind": "sphinxconf", "conf": ser(payload)}, r, m)
+    ctx.sample({"corr_request": lines[len(lines) // 2][:300]})
+
+
+def _dis(ctx, what, case, r, m, field=None):
+    if len(ctx.disagreements) >= 40:
+        return
+    if isinstance(r, dict) and isinstance(m, dict):
+        d = {k: (r.get(k), m.get(k)) for k in set(r) | set(m) if r.get(k) != m.get(k)}
+        r, m = {k: a for k, (a, b) in d.items()}, {k: b for k, (a, b) in d.items()}
+    elif isinstance(r, tuple) and isinstance(m, tuple) and len(r) == 3 and len(m) == 3 and isinstance(r[0], dict) and isinstance(m[0], dict):
+        d = {k: (r[0].get(k), m[0].get(k)) for k in set(r[0]) | set(m[0]) if r[0].get(k) != m[0].get(k)}
+        r, m = ({k: a for k, (a, b) in d.items()}, r[1], r[2]), ({k: b for k, (a, b) in d.items()}, m[1], m[2])
+    ctx.disagree(what, case, repr(r)[:700], repr(m)[:700])
+
+
+def sphinx_create(conf):
+    """sphinx_ext.main.create_myst_config on a stand-in app: config values are the registered defaults
+    (the fields of MdParserConfig()) overridden by conf; returns the config or the logged error class."""
+    import copy as cp
+    import logging
+    import types
+    from myst_parser.config.main import MdParserConfig
+    from myst_parser.sphinx_ext.main import create_myst_config
+    config = {}
+    for name, default, field in MdParserConfig().as_triple():
+        if "sphinx" not in field.metadata.get("omit", []):
+            config["myst_" + name] = cp.deepcopy(conf[name]) if name in conf else default
+    app = types.SimpleNamespace(config=config, env=types.SimpleNamespace())
+    records = []
+
+    class H(logging.Handler):
+        def emit(self, record):
+            records.append(record)
+    h = H(level=logging.ERROR)
+    lg = logging.getLogger("sphinx")
+    lg.addHandler(h)
+    try:
+        create_myst_config(app)
+    except Exception as e:
+        return ("error", "other:" + type(e).__name__)
+    finally:
+        lg.removeHandler(h)
+    if any(r.levelno >= logging.ERROR for r in records):
+        return ("error", "invalid")
+    return V.canon_cfg(app.env.myst_config)
+
+
 # ------------------------------------------------------------------ witness (de)serialisation
 
 def ser(v):
@@ -195,6 +487,20 @@ def docutils_parse(field, s):
     return ("ok", cfg)
 
 
+def _docutils_setting_value(field, s):
+    import contextlib
+    import io
+    import warnings
+    from docutils.frontend import OptionParser
+    from myst_parser.parsers.docutils_ import Parser
+    with warnings.catch_warnings():
+        warnings.simplefilter("ignore")
+        op = OptionParser(components=(Parser,), read_config_files=False)
+        with contextlib.redirect_stderr(io.StringIO()):
+            settings = op.parse_args(["--myst-" + field.replace("_", "-") + "=" + s])
+    return getattr(settings, "myst_" + field)
+
+
 def spell(field, v):
     """Docutils option-string spellings of a (valid) value, [] if it has none."""
     if field in V.OMIT_DOCUTILS or field in ("heading_slug_func",) and not isinstance(v, str):
@@ -230,6 +536,20 @@ def _yaml_plain(s):
 
 def check_docutils(ctx, case):
     from myst_parser.config.main import MdParserConfig
+    if case.get("value") is None and case.get("strings"):
+        # a bare option string (from a correspondence disagreement): whatever the option parser hands to
+        # create_myst_config must be accepted iff it has the documented type
+        f, s0 = case["field"], case["strings"][0]
+        r = docutils_parse(f, s0)
+        if r[0] == "optparse-error":
+            return True
+        val = _docutils_setting_value(f, s0)
+        want = V.doc_type_ok(f, val)
+        if want != (r[0] == "ok"):
+            ctx.fail(f"docutils-string:{f}", case, f"--myst-{f.replace('_', '-')}={s0!r} -> {val!r}: acceptance differs from the documented type",
+                     want, r[0])
+            return False
+        return True
     f, v = case["field"], deser(case["value"])
     ok = True
     for s in case.get("strings") or spell(f, v):
@@ -353,8 +673,77 @@ def check_sphinx_doc(ctx, case):
     return True
 
 
+def check_topmatter(ctx, case):
+    """Several front-matter keys at once: expected result from the documented-type oracle alone."""
+    import copy as cp
+    from myst_parser.config.main import MdParserConfig, merge_file_level
+    top = deser(case["topmatter"])
+    base = MdParserConfig(**cp.deepcopy(BASE_KW))
+    snap = _snapshot(base)
+    ws = []
+    try:
+        new = merge_file_level(base, cp.deepcopy(top), lambda t, m: ws.append(m))
+    except Exception as e:
+        ctx.fail(f"exception:{type(e).__name__}:merge_file_level", case, f"merge_file_level raised {e!r}")
+        return False
+    ok = True
+    if _snapshot(base) != snap:
+        ctx.fail("global-modified", case, "the global config object changed while merging front matter")
+        ok = False
+    exp = {k: getattr(base, k) for k in V.canon_cfg(base)}
+    n_warn = 0
+    myst = top.get("myst", {})
+    if not isinstance(myst, dict):
+        n_warn += 1
+        myst = {}
+    updates = dict(myst)
+    for k in ("html_meta", "substitutions"):
+        if k in top:
+            n_warn += 1
+            updates[k] = top[k]
+    for k, v in updates.items():
+        if not isinstance(k, str) or k not in V.DOC_FIELDS or k not in exp:
+            n_warn += 1
+        elif not V.doc_type_ok(k, v):
+            n_warn += 1
+        else:
+            cv = V.doc_canonical(k, v)
+            exp[k] = {**exp[k], **cv} if k in V.MERGE_FIELDS else cv
+    got = V.canon_cfg(new)
+    want = {k: V.canon(v) for k, v in exp.items()}
+    if got != want:
+        d = sorted(k for k in got if got[k] != want[k])
+        ctx.fail("frontmatter-result:" + ",".join(d), case, "front matter result differs from applying the valid keys to the global config",
+                 {k: want[k] for k in d}, {k: got[k] for k in d})
+        ok = False
+    if len(ws) != n_warn:
+        ctx.fail("warning-count:topmatter", case, "number of topmatter warnings differs from the number of invalid/unknown/deprecated entries",
+                 n_warn, ws)
+        ok = False
+    return ok
+
+
+def check_kwargs(ctx, case, sphinx=False):
+    import copy as cp
+    from myst_parser.config.main import MdParserConfig
+    kw = deser(case["kwargs" if not sphinx else "conf"])
+    want_ok = all(isinstance(k, str) and k in V.DOC_FIELDS and V.doc_type_ok(k, v) for k, v in kw.items())
+    r = sphinx_create(kw) if sphinx else impl_result(lambda: MdParserConfig(**cp.deepcopy(kw)))
+    if want_ok != isinstance(r, dict):
+        ctx.fail("accept-iff-type:" + ("sphinx" if sphinx else "constructor"), case,
+                 "acceptance differs from the documented types of the keywords", want_ok, repr(r)[:300])
+        return False
+    return True
+
+
 def check_case(ctx, case):
     k = case["kind"]
+    if k == "topmatter":
+        return check_topmatter(ctx, case)
+    if k == "kwargs":
+        return check_kwargs(ctx, case)
+    if k == "sphinxconf":
+        return check_kwargs(ctx, case, sphinx=True)
     if k == "value":
         return check_value(ctx, case)
     if k == "docutils":
@@ -404,6 +793,14 @@ def search(ctx):
                 ctx.search_cases += 1
                 ctx.count("search:docutils-string")
                 check_docutils(ctx, {"kind": "docutils", "field": c["field"], "value": c["value"]})
+    # several front-matter keys at once
+    import dataclasses as _dc
+    from myst_parser.config.main import MdParserConfig as _C
+    _fields = [f.name for f in _dc.fields(_C)]
+    for _ in range(ctx.budget(1500, 20000, 20000)):
+        ctx.search_cases += 1
+        ctx.count("search:topmatter")
+        check_topmatter(ctx, {"kind": "topmatter", "topmatter": ser(rand_topmatter(ctx.rng, _fields))})
     # effect equivalence on generated documents
     rng = ctx.rng
     n_docs = ctx.budget(120, 1500, 1500)
